@@ -152,8 +152,10 @@ Proof.
   intros s e G I S. unfold Good09 in *.
   pose proof (apply_good lops09 [P1] safe09 expect09 R09 CHK09) as AG.
   pose proof (apply_expect lops09 [P1] safe09 expect09 R09 CHK09 GRP09) as AE.
-  destruct e as [T a n|T a n|T a n|T a n|m|c T|k T|T|T|T a]; unfold ev_in09 in I; try discriminate;
+  destruct e as [T a n|T a n|T a n|T a n|m|c T|k T|T|T|T a]; unfold ev_in09 in I;
     unfold step; unfold safe_ev09 in S.
+  3: discriminate I.
+  3: discriminate I.
   - (* Read *)
     split; [apply AG; [exact G|exact I|reflexivity]|].
     destruct T; unfold expected09; try reflexivity.
